@@ -191,9 +191,12 @@ def gen_timer_base(rng):
     placement = [rng.randrange(nnodes) for _ in range(nprocs)]
     delays = [0.5, 1.0, 1.0, 2.0, 3.0]
     lines = ["NODE %d 0" % n for n in range(nnodes)]
+    # sometimes one process is stateless (its state never changes: only its timer bookkeeping does), so that the
+    # bookkeeping must be restored exactly on backtracking for the contract to hold on sibling paths
+    stateless_proc = rng.randrange(nprocs) if rng.random() < 0.4 else None
     for p in range(nprocs):
         nrows = rng.choice([2, 3])
-        lines.append("PROC %d %d %d 0 0 %d" % (p, placement[p], rng.choice([2, 3]), nrows))
+        lines.append("PROC %d %d %d %d 0 %d" % (p, placement[p], rng.choice([2, 3]), 2 if p == stateless_proc else 0, nrows))
         for ri in range(nrows):
             acts = []
             if ri == 0:
@@ -224,7 +227,7 @@ def gen_timer_base(rng):
         if p == 0 or rng.random() < 0.6:
             cb.append("CB LOCAL %d %d %s" % (placement[p], p, gen_msg(rng)))
     feat = {"timers": True, "override": False, "clock": False, "drop": False, "dupl": False, "corrupt": False, "crash": False,
-            "netops": False, "mf": rng.random() < 0.2, "stateless": False, "timer_rich": True}
+            "netops": False, "mf": rng.random() < 0.2, "stateless": stateless_proc is not None, "timer_rich": True}
     if feat["mf"]:
         cb.insert(0, "CB MODE 1")
     preds = ["PRED INV NONE", "PRED GOAL NOEVENTS", "PRED PRUNE NONE", "PRED COLLECT NONE"]
